@@ -117,6 +117,11 @@ NOTES = {
              "no concrete input.",
     "C09_m": "only the closed notification is lost (key exchange and message delivery still hold; its author placed it at the edge of C09's "
              "wording): caught by C08 (close-never-completes), not by C09.",
+    "C15_c": "no longer applies: fix 129b6a1 edits a line inside the loop this seed wraps; re-applied by 3-way merge as C15_c2 "
+             "(results below are from the tree before that fix).",
+    "C15_c2": "C15_c re-applied by 3-way merge on the tree after fix 129b6a1 (done by the verifier, demo unchanged).",
+    "C09_q": "first detected at proof level only (service_is_plain_clientservice); since round 8 the long-outage probe on the REAL "
+             "ClientService (3 000 / 20 000 refused attempts) gives the concrete history.",
     "C04_a": "transit replay acceptance: caught by C06 (the channel property C04 builds on).",
 }
 
